@@ -52,5 +52,21 @@ WCirc(t, m) ==
    bbs |-> <<>>, acyc |-> TRUE]
 W == {WCirc(t, m) : t \in GatesN, m \in 3..6}
 
+(* graph shapes: all DAGs on n nodes whose labelling is topological (every DAG shape up to isomorphism) and
+   all digraphs without self-loops on 4 labelled nodes (cyclic ones included; acyc is recomputed by the harness) *)
+PairsLT(n) == {e \in (1..n) \X (1..n) : e[1] < e[2]}
+PairsNE(n) == {e \in (1..n) \X (1..n) : e[1] # e[2]}
+OrdN(n) == [q \in 1..n |-> q]
+GraphCirc(n, E) ==
+  [name |-> "gfam", n |-> n, names |-> [q \in 1..n |-> "n" \o ToString(q)],
+   ty  |-> [q \in 1..n |-> IF \E e \in E : e[2] = q THEN "and" ELSE "input"],
+   out |-> [q \in 1..n |-> ~\E e \in E : e[1] = q],
+   fi  |-> [q \in 1..n |-> SelectSeq(OrdN(n), LAMBDA p : <<p, q>> \in E)],
+   bbs |-> <<>>, acyc |-> TRUE]
+DAG4 == {GraphCirc(4, E) : E \in SUBSET PairsLT(4)}
+DAG5 == {GraphCirc(5, E) : E \in SUBSET PairsLT(5)}
+DAG6 == {GraphCirc(6, E) : E \in SUBSET PairsLT(6)}
+DG3  == {GraphCirc(3, E) : E \in SUBSET PairsNE(3)}
+DG4  == {GraphCirc(4, E) : E \in SUBSET PairsNE(4)}
 NoX(F) == {c \in F : "x" \notin Range(c.ty)}
 =============================================================================
